@@ -258,6 +258,8 @@ pub fn mc_cb_op(sys: &mut McSystem, loc: &HashMap<String, String>, ws: &[String]
 
 thread_local! {
     pub static PREDS: RefCell<bool> = RefCell::new(false);
+    /// the network settings of the first state evaluated in the current run (canonical text)
+    pub static FIRST_NET: RefCell<Option<String>> = RefCell::new(None);
 }
 
 pub struct Capped;
@@ -280,6 +282,7 @@ pub fn make_config(
     loc: &HashMap<String, String>,
     rec: Rc<RefCell<Vec<String>>>,
 ) -> StrategyConfig {
+    FIRST_NET.with(|n| *n.borrow_mut() = None);
     let inv = parse_cond(kv(ws, "inv"));
     let goal = parse_cond(kv(ws, "goal"));
     let prune = parse_cond(kv(ws, "prune"));
@@ -316,6 +319,9 @@ pub fn make_config(
             if rec.borrow().len() >= cap() {
                 // scenario too large for the correspondence run: abort it (reported as `capped`)
                 std::panic::panic_any(Capped);
+            }
+            if rec.borrow().is_empty() {
+                FIRST_NET.with(|n| *n.borrow_mut() = Some(show_net(&format!("{:?}", s.network))));
             }
             if PREDS.with(|p| *p.borrow()) {
                 rec.borrow_mut().push(format!("{} {}", show_state(s), crate::preds::battery(s)));
@@ -367,6 +373,43 @@ pub fn summarize(res: McResult, rec: &Rc<RefCell<Vec<String>>>) -> RunOut {
     }
 }
 
+/// canonical text of the checker's network settings, from the `Debug` rendering of the public `McState::network` field
+/// (`McNetwork` has no getters): the three rates as the flags the checker's semantics depends on, the node and link sets sorted
+pub fn show_net(dbg: &str) -> String {
+    fn field<'a>(dbg: &'a str, name: &str) -> &'a str {
+        let key = format!("{}: ", name);
+        let i = dbg.find(&key).map(|i| i + key.len()).unwrap_or(dbg.len());
+        &dbg[i..]
+    }
+    fn num(dbg: &str, name: &str) -> f64 {
+        let rest = field(dbg, name);
+        let end = rest.find(|c: char| c == ',' || c == ' ' || c == '}').unwrap_or(rest.len());
+        rest[..end].parse().unwrap_or(f64::NAN)
+    }
+    fn set(dbg: &str, name: &str) -> Vec<String> {
+        let rest = field(dbg, name);
+        let end = rest.find('}').unwrap_or(rest.len());
+        let inner = rest[..end].trim_start_matches('{');
+        let mut names: Vec<String> = inner.split('"').skip(1).step_by(2).map(|x| x.to_string()).collect();
+        if name == "disabled_links" {
+            names = names.chunks(2).map(|c| format!("{}>{}", c[0], c.get(1).cloned().unwrap_or_default())).collect();
+        }
+        names.sort();
+        names
+    }
+    let (dr, du, co) = (num(dbg, "drop_rate"), num(dbg, "dupl_rate"), num(dbg, "corrupt_rate"));
+    format!(
+        "drop={} dupl={} corrupt={} din={} dout={} links={} maxd={}",
+        (dr > 0.0) as u8,
+        (du != 0.0) as u8,
+        (co > 0.0) as u8,
+        show_list(&set(dbg, "drop_incoming")),
+        show_list(&set(dbg, "drop_outgoing")),
+        show_list(&set(dbg, "disabled_links")),
+        units_of(num(dbg, "max_delay"))
+    )
+}
+
 pub fn run_lines(k: usize, out: &RunOut) -> Vec<String> {
     let mut v = vec![format!(
         "run {} result={} evaluated={} collected={}",
@@ -375,6 +418,9 @@ pub fn run_lines(k: usize, out: &RunOut) -> Vec<String> {
         out.evaluated.len(),
         out.collected.len()
     )];
+    if let Some(n) = FIRST_NET.with(|n| n.borrow_mut().take()) {
+        v.push(format!("NETS {}", n));
+    }
     for e in &out.evaluated {
         v.push(format!("E {}", e));
     }
